@@ -8,9 +8,12 @@ export GOFLAGS=-mod=mod GOPROXY=off GOSUMDB=off GOTOOLCHAIN=local CARGO_NET_OFFL
 mkdir -p "$ROOT/build" "$ROOT/evidence" "$ROOT/replays"
 cd "$ROOT" || exit 2
 
+TAG="${VERIF_BUILD_TAG:-}"
+OVERLAY="$ROOT/build/overlay$TAG.json"
+BIN="$ROOT/build/vcheck$TAG"
 gen_overlay() {
   # overlay: virtual packages / in-package hook files injected into the repo tree (all //go:build verif)
-  python3 - "$ROOT" "$REPO" > "$ROOT/build/overlay.json" <<'PY'
+  python3 - "$ROOT" "$REPO" > "$OVERLAY" <<'PY'
 import json, os, sys
 root, repo = sys.argv[1], sys.argv[2]
 rep = {}
@@ -20,6 +23,9 @@ for line in open(os.path.join(root, "overlay", "MAP")):
         continue
     src, dst = line.split()
     rep[os.path.join(repo, dst)] = os.path.join(root, "overlay", src)
+extra = os.environ.get("VERIF_EXTRA_OVERLAY")
+if extra:  # mutation testing: replace repo files without touching /repo
+    rep.update(json.load(open(extra))["Replace"])
 json.dump({"Replace": rep}, sys.stdout, indent=1)
 PY
 }
@@ -30,8 +36,8 @@ build() {
   if ! grep -q "=> $REPO\$" go.mod; then
     sed -i "s#^replace github.com/np-guard/netpol-analyzer => .*#replace github.com/np-guard/netpol-analyzer => $REPO#" go.mod
   fi
-  if ! go build -tags verif -overlay "$ROOT/build/overlay.json" -o "$ROOT/build/vcheck" ./cmd/vcheck 2> "$ROOT/build/build.log"; then
-    cat "$ROOT/build/build.log" >&2
+  if ! go build -tags verif -overlay "$OVERLAY" -o "$BIN" ./cmd/vcheck 2> "$ROOT/build/build$TAG.log"; then
+    cat "$ROOT/build/build$TAG.log" >&2
     echo "HARNESS-ERROR: the tree under test (or the harness) does not build" >&2
     exit 2
   fi
@@ -44,11 +50,11 @@ case "${1:-}" in
     ;;
   replay)
     build
-    exec "$ROOT/build/vcheck" replay "$2"
+    exec "$BIN" replay "$2"
     ;;
   C*)
     build
-    exec "$ROOT/build/vcheck" "$1" "${2:-${VERIF_TIER:-quick}}"
+    exec "$BIN" "$1" "${2:-${VERIF_TIER:-quick}}"
     ;;
   *)
     echo "usage: run.sh setup | <Cxx> quick|thorough | replay <file>" >&2
